@@ -127,6 +127,10 @@ def _tables(ctx, fn='generateProgram'):
 
 @memoised('A64-DSREAD-HSEM')
 def rule_dsread(ctx, R):
+    from rules import a64hsem as _T
+    if _T.STRICT_FAMILY:
+        R.note('rule_dsread skipped: RXVERIF_STRICT_FAMILY=1 (evaluation on terms switched off, see DESIGN.md 9.2)')
+        return
     R.rule('A64-DSREAD-HSEM', 'the dataset read at the end of every iteration of a compiled A64 program (full-memory mode) - the generated `eor w20, wA, wB`, the four instructions of the v1 or v2 piece, and the static text '
            'up to the spMix1 update with the two masks the generator writes - executed on a register file of terms performs specification 4.6.2 steps 5-8: ma:mx updated with the zero-extended 32-bit XOR of the '
            'two read registers before (v1) or after (v2) the halves are swapped, prefetch at base + (new mx & CacheLineAlignMask), read at base + (old ma & CacheLineAlignMask), the eight words XORed into r0..r7', min_instances=24)
@@ -206,6 +210,10 @@ def rule_dsread(ctx, R):
 
 @memoised('A64-LOOPLOAD')
 def rule_loopload(ctx, R):
+    from rules import a64hsem as _T
+    if _T.STRICT_FAMILY:
+        R.note('rule_loopload skipped: RXVERIF_STRICT_FAMILY=1 (evaluation on terms switched off, see DESIGN.md 9.2)')
+        return
     R.rule('A64-LOOPLOAD', 'the load half of the A64 loop (specification 4.6.2 steps 2-3), with the two scratchpad masks the generator writes, executed on terms: r_j ^= the j-th quadword at scratchpad + (spMix low half & L3 mask), '
            'and the eight pairs of 32-bit integers at scratchpad + (spMix high half & L3 mask) + 8k go, sign-extended, to the two lanes of f0-f3 / e0-e3 (v16 + k) before the conversion', min_instances=20)
     FI = astq.Facts(ctx, 'K0')
@@ -288,6 +296,10 @@ def _loopload_one(ctx, R, P, mask, fn):
 
 @memoised('A64-DSREAD-LIGHT')
 def rule_dsread_light(ctx, R):
+    from rules import a64hsem as _T
+    if _T.STRICT_FAMILY:
+        R.note('rule_dsread_light skipped: RXVERIF_STRICT_FAMILY=1 (evaluation on terms switched off, see DESIGN.md 9.2)')
+        return
     R.rule('A64-DSREAD-LIGHT', 'the light-mode dataset read of a compiled A64 program up to its call of the item routine - the generated `eor w20, wA, wB`, the static text of vm_instructions_end_light with the 8-byte v1 or v2 '
            'tweak copied in and the mask word generateProgramLight writes - executed on terms: ma:mx as in full-memory mode, first argument = cache pointer, third argument = item number (old ma & CacheLineAlignMask) / 64 '
            '(plus the dataset offset A64-DSOFF decides), nothing else of the VM state touched', min_instances=12)
@@ -377,6 +389,10 @@ def rule_dsread_light(ctx, R):
 
 @memoised('A64-DSITEM-HSEM')
 def rule_dsitem(ctx, R):
+    from rules import a64hsem as _T
+    if _T.STRICT_FAMILY:
+        R.note('rule_dsitem skipped: RXVERIF_STRICT_FAMILY=1 (evaluation on terms switched off, see DESIGN.md 9.2)')
+        return
     R.rule('A64-DSITEM-HSEM', 'the hand-written pieces of the A64 dataset-item routine, executed on terms, are the steps of specification 7.3: r0 = (item + 1) * superscalarMul0, r_i = r0 ^ superscalarAdd_i; '
            'cache line pointer = cache memory + (register value & (CacheSize / 64 - 1)) * 64 with the mask word generateSuperscalarHash writes; r_i ^= the i-th word of that line; the eight registers stored to the output in order; the word the generator emits after each round moves the address register of the program into the register-value register', min_instances=18)
     FI = astq.Facts(ctx, 'K0')
